@@ -64,6 +64,50 @@ func cmdfnsLine(kind string, toks []string) (out string) {
 	}
 }
 
+// seqlyLine: "Q tok...", tok = n (nil command) | z<k> (command k, result nil) | <k> (command k, result message k):
+// what the command `Sequentially(cmds...)` returns and which of the given commands it called, in order.
+func seqlyLine(toks []string) (out string) {
+	defer func() {
+		if v := recover(); v != nil {
+			out = panicKind(v)
+		}
+	}()
+	var ran []string
+	cmds := make([]tea.Cmd, len(toks))
+	for i, t := range toks {
+		if t == "n" {
+			continue
+		}
+		id, nilres := t, false
+		if strings.HasPrefix(t, "z") {
+			id, nilres = t[1:], true
+		}
+		cmds[i] = func() tea.Msg {
+			ran = append(ran, id)
+			if nilres {
+				return nil
+			}
+			return cmdMsg{id}
+		}
+	}
+	res := tea.Sequentially(cmds...) //nolint:staticcheck // deprecated, still public
+	if res == nil {
+		return "nilcmd"
+	}
+	if len(ran) != 0 {
+		return "called-at-construction " + strings.Join(ran, " ")
+	}
+	r := "nil"
+	switch m := res().(type) {
+	case nil:
+	case cmdMsg:
+		r = m.ID
+	default:
+		r = "other:" + tea.VerifDescribeMsg(m)
+	}
+	return strings.TrimSpace("res " + r + " ran " + strings.Join(ran, " "))
+}
+
 func streamCmdFns(c *corrOut, r *rng, n int, thorough bool) map[string]interface{} {
 	emit := func(kind string, toks []string) {
 		out := cmdfnsLine(kind, toks)
@@ -105,7 +149,61 @@ func streamCmdFns(c *corrOut, r *rng, n int, thorough bool) map[string]interface
 			emit("S", toks)
 		}
 	}
+	emitQ := func(toks []string) {
+		out := seqlyLine(toks)
+		c.emit(strings.TrimSpace("Q "+strings.Join(toks, " ")), out, "Q"+fmt.Sprint(len(toks)))
+		// C02, directly: nil commands skipped, nil results skipped, the first non-nil result is the answer,
+		// nothing after it is called
+		exp, ran := "nil", []string{}
+		for _, t := range toks {
+			if t == "n" {
+				continue
+			}
+			if strings.HasPrefix(t, "z") {
+				ran = append(ran, t[1:])
+				continue
+			}
+			ran = append(ran, t)
+			exp = t
+			break
+		}
+		want := strings.TrimSpace("res " + exp + " ran " + strings.Join(ran, " "))
+		if out != want {
+			c.addFinding(finding{Property: "C02", Class: "new", What: "Sequentially does not skip nil commands / nil results, or calls a command after the first result", Input: "Sequentially " + strings.Join(toks, " "), Expected: want, Observed: out})
+		}
+	}
+	for l := 0; l <= 4; l++ {
+		total := 1
+		for i := 0; i < l; i++ {
+			total *= 3
+		}
+		for code := 0; code < total; code++ {
+			toks := make([]string, l)
+			x := code
+			for i := range toks {
+				toks[i] = []string{"n", "z" + fmt.Sprint(i+1), fmt.Sprint(i + 1)}[x%3]
+				x /= 3
+			}
+			emitQ(toks)
+		}
+	}
 	for c.count < n {
+		if r.chance(1, 4) {
+			l := r.intn(30)
+			toks := make([]string, l)
+			for i := range toks {
+				switch r.intn(4) {
+				case 0:
+					toks[i] = "n"
+				case 1:
+					toks[i] = fmt.Sprint(r.intn(1000))
+				default:
+					toks[i] = "z" + fmt.Sprint(r.intn(1000))
+				}
+			}
+			emitQ(toks)
+			continue
+		}
 		l := r.intn(40)
 		toks := make([]string, l)
 		for i := range toks {
